@@ -86,8 +86,12 @@ def three_val(test, val, seen=None, defs=None, depth=0):
                 return a_ in b_
             if isinstance(op, ast.NotIn):
                 return a_ not in b_
+            if lt in vals and isinstance(op, (ast.Gt, ast.GtE, ast.Lt, ast.LtE)) and isinstance(a_, (int, float)) and isinstance(b_, (int, float)):
+                return {ast.Gt: a_ > b_, ast.GtE: a_ >= b_, ast.Lt: a_ < b_, ast.LtE: a_ <= b_}[type(op)]
         except (ValueError, SyntaxError, TypeError):
             pass
+    if vals and norm(test) in vals and isinstance(vals[norm(test)], (int, float, str, bool)):
+        return bool(vals[norm(test)])
     key, neg = leaf_key(test)
     if key in val:
         if seen is not None:
